@@ -532,7 +532,25 @@ class _FragmentCompiler:
                 clk_polarity = 1 if domain.clk_edge == "pos" else 0
                 self.state.add_signal_waker(domain.clk, edge_waker(domain_process, clk_polarity))
                 if domain.async_reset and domain.rst is not None:
-                    self.state.add_signal_waker(domain.rst, edge_waker(domain_process, 1))
+                    # An asynchronous reset only loads the initial values when it is asserted; it must
+                    # not execute the statements of the domain (which would advance reset-less signals
+                    # and memory ports without a clock edge), so it gets a process of its own.
+                    arst_process = PyRTLProcess(is_comb=False)
+                    self.state.add_signal_waker(domain.rst, edge_waker(arst_process, 1))
+                    arst_emitter = _PythonEmitter()
+                    arst_emitter.append(f"def run():")
+                    with arst_emitter.indent():
+                        arst_emitter.append("pass")
+                        for (signal, mask) in lhs_masks.masks():
+                            if not signal.reset_less:
+                                if signal.shape().signed and (mask & 1 << (len(signal) - 1)):
+                                    mask |= -1 << len(signal)
+                                signal_index = self.state.get_signal(signal)
+                                arst_emitter.append(f"slots[{signal_index}].update({signal.init}, {mask})")
+                    arst_locals = {"slots": self.state.slots}
+                    exec(compile(arst_emitter.flush(), "<string>", "exec"), arst_locals)
+                    arst_process.run = arst_locals["run"]
+                    processes.add(arst_process)
 
                 for (signal, _) in lhs_masks.masks():
                     signal_index = self.state.get_signal(signal)
